@@ -1,4 +1,5 @@
 import PlzVerif.Lemmas.CrashRecover
+import PlzVerif.Lemmas.CrashFixed
 import PlzVerif.Lemmas.WriteFile
 import PlzVerif.Lemmas.Build
 import PlzVerif.Generated.C32
@@ -207,6 +208,46 @@ theorem C32_recover_readsMd (b : Params N C S H) (G : N → C → S → Prop) (f
         have := complete_build b (removeOutputs b crash) hnd hne hH
         exact ⟨rfl, this.1, this.2.1⟩
 
+/-- "an output that reads back the CURRENT stamp is the current output" — the part of the history invariant that a
+    same-tree recovery needs; unlike the full invariant it survives crashes in every stamp mode. -/
+def CurInv (b : Params N C S H) (fs : TState N C S) : Prop :=
+  ∀ n ∈ b.outs, SliceInv (fun c s => s = b.stamp → c = b.new n) (b.useFb n) (fs.out n)
+
+/-- any number of interrupted build steps of the same tree, each cut anywhere, each started from what the previous
+    one left -/
+def crashSeq (b : Params N C S H) : List Nat → TState N C S → TState N C S
+  | [], fs => fs
+  | k :: ks, fs => crashSeq b ks (applyOps fs ((planG b fs).take k))
+
+theorem curInv_crash (b : Params N C S H) (fs : TState N C S) (hnd : b.outs.Nodup) (hH : Function.Injective b.hash)
+    (h : CurInv b fs) (k : Nat) : CurInv b (applyOps fs ((planG b fs).take k)) := by
+  intro n hn nd s hg hs hcur
+  subst hcur
+  rw [planG_eq] at hg hs
+  obtain ⟨j, hj⟩ := crash_slice b fs n hnd hn k
+  have hf := crash_forms b fs n j
+  rw [← hj] at hf
+  exact crash_trusted_is_new b n (fun c s => s = b.stamp → c = b.new n) hH (fun c hc => hc rfl) (fs.out n) _ (h n hn) hf nd hg hs
+
+theorem curInv_crashSeq (b : Params N C S H) (hnd : b.outs.Nodup) (hH : Function.Injective b.hash) :
+    ∀ (ks : List Nat) (fs : TState N C S), CurInv b fs → CurInv b (crashSeq b ks fs)
+  | [], _, h => h
+  | k :: ks, fs, h => curInv_crashSeq b hnd hH ks _ (curInv_crash b fs hnd hH h k)
+
+/-- **C32 (same tree), repeated crashes.**  Kill the build of the same tree any number of times, each time after any
+    number of operations, each attempt starting from whatever the previous one left behind; the first build that is
+    allowed to finish leaves exactly the clean outputs (all stamp modes, file and directory outputs). -/
+theorem C32_recover_repeated (b : Params N C S H) (fs : TState N C S)
+    (hnd : b.outs.Nodup) (hne : b.outs ≠ []) (hH : Function.Injective b.hash)
+    (hinv : CurInv b fs) (hmd : b.readsMd = false) (ks : List Nat) :
+    (buildG b false (crashSeq b ks fs)).2 = true ∧
+    OutputsClean b (buildG b false (crashSeq b ks fs)).1 ∧
+    needsBuilding b (buildG b false (crashSeq b ks fs)).1 = false := by
+  have h := curInv_crashSeq b hnd hH ks fs hinv
+  have := C32_recover b (fun n c s => s = b.stamp → c = b.new n) (crashSeq b ks fs) hnd hne hH
+    (fun n _ c hc => hc rfl) h hmd 0
+  simpa [applyOps] using this
+
 /-! ### any later tree: the history invariant at every cut (xattr stamps, file outputs) -/
 
 theorem sliceInv_congr (G : C → S → Prop) (fb : Bool) (s1 s2 : Slice C S) (hg : s1.gen = s2.gen) (hf : s1.fb = s2.fb)
@@ -396,6 +437,63 @@ theorem C32_witness_truncated_metadata :
     (buildG (par 20 200 false [] true) false (buildG (par 20 200 false [] true) false
       (applyOps (st (some [1, 2, 3]) ⟨none, some ⟨20, some 200⟩, none⟩)
         ((planG (par 20 200 false [] true) (st (some [1, 2, 3]) ⟨none, some ⟨20, some 200⟩, none⟩)).take 5))).1).2 = true := by
+  decide
+
+/-! ### the proposed repair, checked on the model
+`fixedOrder` = the coded phase order preceded by a phase that drops the stamp (xattr and fallback record) of every
+declared output.  This is the fix sketched in the three findings; the theorems below show it closes all of them. -/
+
+/-- **With the repair the history invariant survives every cut in EVERY stamp mode and for directory outputs**
+    (compare `C32_crash_inv_partial`, which needs xattr stamps and file outputs for the code as it is). -/
+theorem C32_fixed_crash_inv (b : Params N C S H) (G : N → C → S → Prop) (fs : TState N C S)
+    (hnd : b.outs.Nodup) (hH : Function.Injective b.hash)
+    (hnew : ∀ n ∈ b.outs, G n (b.new n) b.stamp)
+    (hinv : ∀ n, SliceInv (G n) (b.useFb n) (fs.out n)) (k : Nat) :
+    ∀ n, SliceInv (G n) (b.useFb n) ((applyOps fs ((planFixed b fs).take k)).out n) := by
+  intro n
+  obtain ⟨j, hj⟩ := take_filterMap (proj n) (planFixed b fs) k
+  rw [applyOps_out, hj]
+  by_cases hn : n ∈ b.outs
+  · rw [planFixed_proj b fs n hnd hn]
+    exact fixed_sliceInv b fs n (G n) hH (hnew n hn) (hinv n) j
+  · rw [planFixed_proj_other b fs n hn]
+    cases j with
+    | zero => exact hinv n
+    | succ j =>
+      simp only [List.take_succ_cons, List.take_nil]
+      exact sliceInv_congr (G n) (b.useFb n) (fs.out n) _ rfl rfl (hinv n)
+
+/-- **With the repair a truncated metadata file is never trusted**: in every crash state that `needsBuilding` accepts,
+    the metadata file decodes (`hmd0`: it did so before the build step whenever the stamps were current). -/
+theorem C32_fixed_metadata_never_truncated (b : Params N C S H) (fs : TState N C S)
+    (hnd : b.outs.Nodup) (hne : b.outs ≠ []) (hload : b.mdLoads b.mdBytes = true)
+    (hmd0 : ∀ bs, fs.md = some bs → (∀ n ∈ b.outs, readStamp b fs n = some b.stamp) → b.mdLoads bs = true) (k : Nat)
+    (hnb : needsBuilding b (applyOps fs ((planFixed b fs).take k)) = false) :
+    mdFails b (applyOps fs ((planFixed b fs).take k)) = false := by
+  obtain ⟨⟨bs, hbs⟩, hall⟩ := needsBuilding_false b _ hnb
+  have hl : b.mdLoads bs = true := by
+    rcases crash_fixed_md b fs hnd hne k with ⟨h1, h2⟩ | ⟨n, hn, h⟩ | h
+    · exact hmd0 bs (by rw [← h1, hbs]) (by intro n hn; rw [← h2 n]; exact (hall n hn).1)
+    · rw [(hall n hn).1] at h; simp at h
+    · rw [hbs] at h; simp at h; rw [h]; exact hload
+  simp [mdFails, hbs, hl]
+
+open W in
+/-- the three witness scenarios under the repair: at no cut is a wrong output trusted, and no build fails -/
+example : ∀ k < 20,
+    (needsBuilding (par 10 100 true [] false)
+      (applyOps (st (some [9]) ⟨none, some ⟨10, none⟩, some (.full 100)⟩)
+        ((planFixed (par 20 200 true [] false) (st (some [9]) ⟨none, some ⟨10, none⟩, some (.full 100)⟩)).take k)) = true ∨
+     (((applyOps (st (some [9]) ⟨none, some ⟨10, none⟩, some (.full 100)⟩)
+        ((planFixed (par 20 200 true [] false) (st (some [9]) ⟨none, some ⟨10, none⟩, some (.full 100)⟩)).take k)).out 0).gen.map (·.content)) = some 10) ∧
+    (needsBuilding (par 10 100 false [] false)
+      (applyOps (st (some [9]) ⟨none, some ⟨10, some 100⟩, none⟩)
+        ((planFixed (par 20 200 false [11] false) (st (some [9]) ⟨none, some ⟨10, some 100⟩, none⟩)).take k)) = true ∨
+     (((applyOps (st (some [9]) ⟨none, some ⟨10, some 100⟩, none⟩)
+        ((planFixed (par 20 200 false [11] false) (st (some [9]) ⟨none, some ⟨10, some 100⟩, none⟩)).take k)).out 0).gen.map (·.content)) = some 10) ∧
+    (buildFSWith fixedOrder (par 20 200 false [] true) false
+      (applyOps (st (some [1, 2, 3]) ⟨none, some ⟨20, some 200⟩, none⟩)
+        ((planFixed (par 20 200 false [] true) (st (some [1, 2, 3]) ⟨none, some ⟨20, some 200⟩, none⟩)).take k))).2 = true := by
   decide
 
 /-! ### fs.WriteFile -/
